@@ -1,0 +1,103 @@
+//go:build verif
+
+// Contracts for package vs (scenario variable sources), checked by /verif/govc. Comment-only: no code.
+package vs
+
+//@ func NewVariableStorage
+//@ props C15 C13
+//@ modifies nothing
+//@ ensures [empty] fresh(result) && result.sources != nil && len(result.sources) == 0
+
+//@ func (s *SourceStorage) AddSource
+//@ props C15 C13
+//@ requires s.sources != nil
+//@ ensures [registered-under-its-name] has(s.sources, name) && s.sources[name] == variables && forall_t(q, string, imp(q != name && old(has(s.sources, q)), has(s.sources, q) && s.sources[q] == old(s.sources[q])))
+//@ modifies elems(s.sources)
+
+//@ func (s *SourceStorage) Variables
+//@ props C15
+//@ modifies nothing
+//@ ensures result == s.sources
+
+// A CSV source: a file that cannot be opened or read is an error (never a fault), the file is closed once opened, and the
+// rows are kept in file order.
+//@ func (v *VariableSourceCsv) Init
+//@ props C13 C15
+//@ ensures [open-failure-is-an-error] imp(result_of(v.fs.Open, 1) != nil, err != nil && calls(readCsv) == 0)
+//@ ensures [unreadable-data-is-an-error] imp(calls(readCsv) == 1 && result_of(readCsv, 1) != nil, err != nil)
+//@ ensures [the-file-is-closed-once-opened] imp(result_of(v.fs.Open, 1) == nil, calls(file.Close) == 1)
+//@ ensures [rows-kept-on-success] imp(err == nil, v.store == result_of(readCsv, 0))
+//@ at call readCsv assert [the-configured-layout] arg(file) == file && arg(ignoreFirstLine) == v.IgnoreFirstLine && arg(delimiter) == v.Delimiter && arg(fields) == v.Fields
+//@ at call v.fs.Open assert arg(name) == v.File
+
+// Rows of any width: missing cells are empty, nameless columns are numbered; no fault for any input.
+//@ func readCsv
+//@ props C13 C15
+//@ nilsafe
+//@ loop 0 invariant len(fields) == len(fields0)
+//@ loop 1 invariant result != nil || len(result) == 0
+//@ ensures [read-failure-is-an-error] imp(calls(reader.Read) > 0 && result_of(reader.Read, 1) != nil && result_of(reader.Read, 1) != io.EOF, result1 != nil && result0 == nil)
+
+//@ func (v *VariableSourceCsv) GetName
+//@ props C15
+//@ modifies nothing
+//@ ensures result == v.Name
+
+//@ func (v *VariableSourceCsv) GetVariables
+//@ props C15
+//@ modifies nothing
+//@ ensures result == box(v.store)
+
+//@ func NewVSCSV
+//@ props C15 C16
+//@ ensures [the-configured-source-over-the-file-system] result1 == nil && typeis(result0, *VariableSourceCsv) && result0.(*VariableSourceCsv).Name == cfg.Name && result0.(*VariableSourceCsv).File == cfg.File && result0.(*VariableSourceCsv).Delimiter == cfg.Delimiter && result0.(*VariableSourceCsv).IgnoreFirstLine == cfg.IgnoreFirstLine && result0.(*VariableSourceCsv).Fields == cfg.Fields && result0.(*VariableSourceCsv).fs == fs
+
+//@ func (v *VariableSourceJSON) Init
+//@ props C13 C15
+//@ ensures [open-failure-is-an-error] imp(result_of(v.fs.Open, 1) != nil, err != nil)
+//@ ensures [undecodable-data-is-an-error] imp(calls(decoder.Decode) == 1 && result_of(decoder.Decode, 0) != nil, err != nil)
+//@ ensures [the-file-is-closed-once-opened] imp(result_of(v.fs.Open, 1) == nil, calls(file.Close) == 1)
+//@ at call v.fs.Open assert arg(name) == v.File
+
+//@ func (v *VariableSourceJSON) GetName
+//@ props C15
+//@ modifies nothing
+//@ ensures result == v.Name
+
+//@ func NewVSJson
+//@ props C15 C16
+//@ ensures result1 == nil && typeis(result0, *VariableSourceJSON) && result0.(*VariableSourceJSON).Name == cfg.Name && result0.(*VariableSourceJSON).File == cfg.File && result0.(*VariableSourceJSON).fs == fs
+
+//@ func (v *VariableSourceVariables) GetName
+//@ props C15
+//@ modifies nothing
+//@ ensures result == v.Name
+
+//@ func (v *VariableSourceVariables) GetVariables
+//@ props C15
+//@ modifies nothing
+//@ ensures result == box(v.Variables)
+
+// Values that are template function calls (randInt(), uuid(), ...) are computed once, at initialisation; other text stays.
+//@ func (v *VariableSourceVariables) execTemplateFunc
+//@ props C15 C13
+//@ ensures [plain-text-stays] imp(result_of(templater.ParseFunc, 0) == nil, result0 == in && result1 == nil && calls(templater.ExecTemplateFunc) == 0)
+//@ ensures [a-failing-function-is-an-error] imp(calls(templater.ExecTemplateFunc) == 1 && result_of(templater.ExecTemplateFunc, 1) != nil, result1 != nil)
+//@ ensures [the-computed-value] imp(calls(templater.ExecTemplateFunc) == 1 && result_of(templater.ExecTemplateFunc, 1) == nil, result0 == result_of(templater.ExecTemplateFunc, 0) && result1 == nil)
+//@ at call templater.ParseFunc assert arg(v) == in0
+
+//@ func (v *VariableSourceVariables) Init
+//@ props C15 C13
+//@ at call v.recursiveCompute assert [all-configured-variables] arg(input) == v.Variables
+//@ ensures result == result_of(v.recursiveCompute, 0)
+
+// Every string value anywhere in the variables (top level, nested maps, string maps, string lists) is computed; the first
+// failure is returned; no fault for any shape of input.
+//@ func (v *VariableSourceVariables) recursiveCompute
+//@ props C15 C13
+//@ nilsafe
+//@ loop 0 invariant [no-value-failed-so-far] imp(calls(v.execTemplateFunc) > 0, result_of(v.execTemplateFunc, 1) == nil) && imp(calls(v.recursiveCompute) > 0, result_of(v.recursiveCompute, 0) == nil)
+//@ loop 1 invariant [no-value-failed-so-far] imp(calls(v.execTemplateFunc) > 0, result_of(v.execTemplateFunc, 1) == nil)
+//@ loop 2 invariant [no-value-failed-so-far] imp(calls(v.execTemplateFunc) > 0, result_of(v.execTemplateFunc, 1) == nil)
+//@ ensures [a-failing-value-is-an-error] imp(calls(v.execTemplateFunc) > 0 && result_of(v.execTemplateFunc, 1) != nil, result != nil)
+//@ ensures [a-failing-nested-map-is-an-error] imp(calls(v.recursiveCompute) > 0 && result_of(v.recursiveCompute, 0) != nil, result != nil)
